@@ -107,7 +107,7 @@ def run(tier, seed):
         if events:
             s = {k: events[0][k] for k in ("op", "id", "rel", "p", "level", "endom", "pairf") if k in events[0]}
             ev.add_samples([s], limit=1)
-    if os.environ.get("C18_EXT") == "1":
+    if os.environ.get("C18_EXT") != "0":
         total += ext_sweep(ev, wd, known_file, violations, quick)
     # the binary-field polynomials and binary curves of the pinned build (model/FbSpec: polynomial irreducible,
     # generator on the curve, order prime and annihilating, Hasse interval, cofactor class, Koblitz flag, level),
